@@ -14,6 +14,7 @@ CONSTANTS
   PathSet = {"archive"}
 INVARIANT LookupIsUnionInv
 INVARIANT TableIsUnion
+INVARIANT LookupBudgetsInv
 PROPERTY LookupIsUnion
 VIEW HistView
 CHECK_DEADLOCK FALSE
